@@ -320,7 +320,7 @@ def gen_inputs(ctx):
         idx += 1
         yield idx, f"fam:{name}", A, False
     k = 0
-    cap = 6000 if ctx.thorough else 250
+    cap = 30000 if ctx.thorough else 250
     while k < cap:
         k += 1
         idx += 1
